@@ -32,8 +32,9 @@ ProvSources == {[Src(v, a, FALSE, FALSE, -1, FALSE) EXCEPT !.prov = p] : v \in 1
 PowSources  == {[Src(v, FALSE, FALSE, FALSE, b, FALSE) EXCEPT !.pow = p] : v \in 1..4, b \in {-1, 0}, p \in 1..3}
 Opt(t, c, b, se, ss, vf, lo) == [target |-> t, comp |-> c, bs |-> b, skipEnc |-> se, skipSig |-> ss, verify |-> vf, listOnly |-> lo]
 Targets == 0..4
-\* every lossless method the library can write (ADPCM is lossy: not bit-identical by design)
-Comps   == {"keep", "none", "zlib", "bzip2", "sparse", "lzma"} \cup (IF Thorough THEN {"pkware", "huffman", "sparsezlib", "sparsebzip2"} ELSE {})
+\* every lossless method the library can WRITE: zlib, bzip2, sparse, lzma, pkware (Huffman has no compressor, method
+\* combinations beyond ADPCM are refused by compress(), ADPCM is lossy: not bit-identical by design)
+Comps   == {"keep", "none", "zlib", "bzip2", "sparse", "lzma"} \cup (IF Thorough \/ ("C07_PKWARE" \in DOMAIN IOEnv) THEN {"pkware"} ELSE {})
 Sizes   == {-1, 0, 3, 5}
 Default == Opt(0, "keep", -1, FALSE, TRUE, FALSE, FALSE)
 AllOpts == {Opt(t, c, b, se, ss, vf, lo) : t \in Targets, c \in Comps, b \in Sizes, se \in BOOLEAN, ss \in BOOLEAN, vf \in BOOLEAN, lo \in BOOLEAN}
@@ -42,8 +43,12 @@ Diff(o) == {d \in Dims : o[d] # Default[d]}
 QuickOpts == {o \in AllOpts : \/ Cardinality(Diff(o)) <= 1
                               \/ Diff(o) \in {{"target", "comp"}, {"target", "verify"}, {"skipEnc", "verify"}, {"comp", "bs"}, {"comp", "verify"},
                                               {"skipSig", "verify"}, {"skipSig", "skipEnc"}, {"skipSig", "target"}}}
-\* thorough drops only combinations that add nothing: list_only ignores every other option but the filters
-ThoroughOpts == {o \in AllOpts : (o.listOnly => (o.target = 0 /\ o.comp = "keep" /\ o.bs = -1 /\ ~o.verify)) /\ (~o.skipSig => Cardinality(Diff(o)) <= 3)}
+\* thorough: the full product target x compression x sector size with default flags, and the full product of the flags
+\* (skip_encrypted, skip_signatures, verify, list_only) over target in {preserve, V4}, compression in {keep, zlib}, sectors in
+\* {keep, 512 B}; quick options are a subset
+ThoroughOpts == {o \in AllOpts : \/ Diff(o) \subseteq {"target", "comp", "bs"}
+                                 \/ (o.target \in {0, 4} /\ o.comp \in {"keep", "zlib"} /\ o.bs \in {-1, 0}
+                                     /\ (o.listOnly => (o.target = 0 /\ o.comp = "keep" /\ o.bs = -1 /\ ~o.verify)))} \cup QuickOpts
 Opts == IF Thorough THEN ThoroughOpts ELSE QuickOpts
 EdgeOpts == {o \in AllOpts : Diff(o) \subseteq {"comp", "verify"}}
 PowOpts  == {o \in AllOpts : Diff(o) \subseteq {"target", "bs"}}
